@@ -125,6 +125,18 @@ where
 {
     use conjure_object::ToPlain;
     let mut out = vec![];
+    // op "from_plain": the texts themselves go through FromPlain (the FromStr of enums)
+    if req["op"].as_str() == Some("from_plain") {
+        for d in req["docs"].as_array().unwrap() {
+            let text = d.as_str().unwrap();
+            match vcommon::catch(|| T::from_plain(text).ok()) {
+                Err(p) => out.push(json!({"panic": p})),
+                Ok(None) => out.push(json!({"ok": false})),
+                Ok(Some(v)) => out.push(json!({"ok": true, "dbg": format!("{:?}", v).chars().take(120).collect::<String>(), "plain": v.to_plain(), "json": conjure_serde::json::to_string(&v).ok()})),
+            }
+        }
+        return json!({"results": out});
+    }
     for d in req["docs"].as_array().unwrap() {
         let doc = d.as_str().unwrap();
         match conjure_serde::json::client_from_str::<T>(doc) {
